@@ -1,0 +1,15 @@
+//go:build verif
+
+package funcGen
+
+// VerifLetBind is installed by the verification harness (build tag verif).
+// It observes every execution of a let binding: the index under which the
+// compiled code will read the name, and the run-time slot (relative to the
+// current frame) the value is pushed to.
+var VerifLetBind func(name string, compileIdx, runtimeSlot int)
+
+func verifLetBind(name string, compileIdx, runtimeSlot int) {
+	if f := VerifLetBind; f != nil {
+		f(name, compileIdx, runtimeSlot)
+	}
+}
